@@ -27,7 +27,58 @@ def squash_choice(expr: Expression, _rules: Mapping[str, Rule]) -> Expression:
         return expr
 
     exprs = expr.expressions
-    return squash(exprs, OptimizedChoice()) or expr
+    new_expr = squash(exprs, OptimizedChoice())
+    if new_expr and preserves_order(new_expr.choices):
+        return new_expr
+    return expr
+
+
+def _may_match(choice: ChoiceChoice, chars: set[str]) -> bool:
+    """Return `True` if single character `choice` could match one of `chars`."""
+    if isinstance(choice, ChoiceRange):
+        start, end = sorted((choice.start, choice.end))
+        return any(start <= ch <= end for ch in chars)
+    if isinstance(choice, ChoiceLiteral):
+        if choice.case == ChoiceCase.INSENSITIVE:
+            return bool(chars & {choice.value.upper(), choice.value.lower()})
+        return choice.value in chars
+    return True  # Unicode property
+
+
+def preserves_order(choices: list[ChoiceChoice]) -> bool:
+    """Return `False` if squashing `choices` could change which choice matches.
+
+    The optimized pattern tries multi-character literals before single character
+    choices, and case sensitive literals before case insensitive ones. This is
+    equivalent to ordered choice only if no choice that is moved back can match
+    where a longer, later choice matches too.
+    """
+    for i, later in enumerate(choices):
+        if not isinstance(later, ChoiceLiteral) or len(later.value) == 1:
+            continue
+
+        if not later.value:
+            return False
+
+        first = later.value[0]
+        chars = {first}
+        if later.case == ChoiceCase.INSENSITIVE:
+            chars.update((first.upper(), first.lower(), first.swapcase()))
+
+        for earlier in choices[:i]:
+            if not isinstance(earlier, ChoiceLiteral) or len(earlier.value) == 1:
+                if _may_match(earlier, chars):
+                    return False
+            elif (
+                earlier.case == ChoiceCase.INSENSITIVE
+                and later.case == ChoiceCase.SENSITIVE
+                and len(earlier.value) != len(later.value)
+            ):
+                a, b = sorted((earlier.value.lower(), later.value.lower()), key=len)
+                if b.startswith(a):
+                    return False
+
+    return True
 
 
 def squash(
